@@ -307,6 +307,30 @@ template <class K, sz N> void unary_case(vop<K, N> const &U, std::vector<long> c
       check_quotient(v / ki, u, den, fn + ":divide:view");
     }
   }
+  {
+    // the scalar may alias a component of the object itself: u *= u[j] must use the value u[j] had before
+    static std::string const fn = kname<K, N>("scalar_alias");
+    for (sz j = 0; j < N; ++j)
+    {
+      if (!vrt::begin_text(fn.c_str(), fn + " j=" + std::to_string(j) + " u=" + text))
+        continue;
+      vrt::nontrivial(!rvzero(u) && u[j] != 0 && u[j] != 1);
+      rvec<N> const want = rvscal(u[j], u);
+      {
+        kst<K, N> m = s;
+        m *= m.storage()[j];
+        C14_EQ(rdv(m), want, fn + ":compound", "u*=u[j]");
+        kst<K, N> d = s;
+        d *= d.get_unsafe(j);
+        C14_EQ(rdv(d), want, fn + ":compound:get_unsafe", "u*=u.get_unsafe(j)");
+        C14_EQ(rdv(s * s.storage()[j]), want, fn + ":free", "u*u[j]");
+        buf<N> tb(u);
+        kvw<K, N> t = kview<K, N>(tb);
+        t *= t.get_unsafe(j);
+        C14_EQ(tb.read(), want, fn + ":compound:view", "u*=u[j] (view storage)");
+      }
+    }
+  }
   if constexpr (!K::is_vector)
   {
     static std::string const fn = kname<K, N>("contents");
